@@ -7,9 +7,9 @@ CONSTANTS
   BugIterUncompress = FALSE
   BugDelOpt = FALSE
   BugSkipLeft = FALSE
-  BugRecompute = TRUE
+  BugRecompute = FALSE
   BugOptTtl = FALSE
-  BugOptName = FALSE
+  BugOptName = TRUE
   BugInsertOrder = FALSE
 INIT Init2
 NEXT Next
